@@ -7,7 +7,11 @@ import (
 	"io"
 	"log"
 	"net"
+	"time"
 )
+
+// handshakeTimeout bounds the TLS handshake of one connection.
+const handshakeTimeout = 10 * time.Second
 
 type tlsListener struct {
 	listener net.Listener
@@ -23,24 +27,30 @@ func NewTLSTransport(ctx context.Context, tlsConfig *tls.Config, port int, setup
 
 	listener.listener = l
 	go runAccept(l, func(rawConn net.Conn) {
-		tcpConn := rawConn.(*net.TCPConn)
-		c := tls.Server(tcpConn, tlsConfig)
-		err = c.Handshake()
-		if err != nil {
-			c.Close()
-			if err == io.EOF {
+		// The handshake waits for the peer: it runs beside the accept loop, and not for ever,
+		// so that a peer that says nothing does not keep every later client out.
+		go func() {
+			tcpConn := rawConn.(*net.TCPConn)
+			c := tls.Server(tcpConn, tlsConfig)
+			c.SetDeadline(time.Now().Add(handshakeTimeout))
+			err := c.Handshake()
+			if err != nil {
+				c.Close()
+				if err == io.EOF {
+					return
+				}
+				log.Printf("ERROR: tls handshake failed: %v", err)
 				return
 			}
-			log.Printf("ERROR: tls handshake failed: %v", err)
-			return
-		}
-		state := c.ConnectionState()
-		setuper.Setup(ctx, Metadata{
-			Channel:         c,
-			Encrypted:       true,
-			EncryptionState: &state,
-			Name:            "tls",
-		})
+			c.SetDeadline(time.Time{})
+			state := c.ConnectionState()
+			setuper.Setup(ctx, Metadata{
+				Channel:         c,
+				Encrypted:       true,
+				EncryptionState: &state,
+				Name:            "tls",
+			})
+		}()
 	})
 	return l, nil
 }
